@@ -251,9 +251,20 @@ pub fn rseq(
             let res = std::panic::catch_unwind(|| txtpp::verif::preprocess_one(&sh, &ba, &fp, md, trailing_newline));
             let _ = tx.send(res);
         });
-        let res = match rx.recv_timeout(std::time::Duration::from_secs(60)) {
-            Ok(r) => r,
-            Err(_) => {
+        let mut got = None;
+        for _ in 0..240 {
+            match rx.recv_timeout(std::time::Duration::from_millis(250)) {
+                Ok(r) => {
+                    got = Some(r);
+                    break;
+                }
+                Err(std::sync::mpsc::RecvTimeoutError::Timeout) => {}
+                Err(std::sync::mpsc::RecvTimeoutError::Disconnected) => break,
+            }
+        }
+        let res = match got {
+            Some(r) => r,
+            None => {
                 r.hung = Some(s.path.clone());
                 r.ok.insert(i, false);
                 r.err_text.insert(i, "reference pass did not return within 60 s".into());
